@@ -574,14 +574,15 @@ func (s *BaseNodeService) reinitDKG(message storage.Message) error {
 
 	operations := make([]*types.Operation, 0)
 	for _, msg := range req.Messages {
-		if fsm.Event(msg.Event) == sif.EventSigningStart {
-			break
-		}
-
 		// the reinit message describes one round: embedded messages of any
-		// other round must not be applied (they are processed unverified)
+		// other round must not be applied (they are processed unverified) -
+		// nor may another round's signing batch end this round's replay
 		if msg.DkgRoundID != req.DKGID {
 			continue
+		}
+
+		if fsm.Event(msg.Event) == sif.EventSigningStart {
+			break
 		}
 
 		// LDC-07 Messages May Be Sent to a Single Node
